@@ -27,6 +27,18 @@ def plain_of(name, rng) -> bytes:
             "n16pad0": lambda: rng.randbytes(15) + b"\x00", "json": lambda: b'{"iss":"joe","sub":"x"}', "utf8": lambda: "héllo wörld 世界".encode()}[name]()
 
 
+def sufficient_key_ops(alg):
+    if alg.startswith("RSA"):
+        return {"key_ops": ["encrypt", "decrypt", "wrapKey", "unwrapKey"]}
+    if alg.endswith("GCMKW") or (alg.startswith("A") and alg.endswith("KW")):
+        return {"key_ops": ["wrapKey", "unwrapKey"]}
+    if alg.startswith("PBES2"):
+        return {"key_ops": ["deriveKey"]}
+    if g.is_ecdh(alg):
+        return {"key_ops": ["deriveKey", "deriveBits"]}
+    return {}   # dir: which operation applies is not settled
+
+
 class ECell:
     def __init__(self, rng, alg=None, enc=None, zip_=None, curve=None, form=None, plain=None, aad=None, apu=None, placement=None,
                  key_via=None, zip_unprotected=False):
@@ -57,12 +69,13 @@ class ECell:
         else:
             self.algs = [self.alg]
         # several key-agreement recipients need not share a curve (ECDH-1PU recipients share the sender's)
+        self.restricted = rng.random() < 0.3
         self.curves = [self.curve] * n
         if n > 1 and not g.is_1pu(self.alg) and rng.random() < 0.5:
             self.curves = [rng.choice(g.ECDH_CURVES) for _ in range(n)]
 
     def desc(self):
-        return {"algs": self.algs, "enc": self.enc, "zip": self.zip, "curve": self.curve, "curves": self.curves, "form": self.form, "plain": self.plain,
+        return {"algs": self.algs, "enc": self.enc, "zip": self.zip, "curve": self.curve, "curves": self.curves, "restricted_keys": self.restricted, "form": self.form, "plain": self.plain,
                 "aad": self.aad, "apu": self.apu, "placement": self.placement, "key_via": self.key_via, "zip_unprotected": self.zip_unprotected}
 
 
@@ -79,6 +92,9 @@ def produce(cell: ECell, rng):
     for i, a in enumerate(cell.algs):
         kid = f"r{i}" if (n > 1 or cell.key_via == "keyset") else None
         rk, sk = g.keys_for(a, cell.enc, cell.curves[i], **({"kid": kid} if kid else {}))
+        if cell.restricted:
+            # a key restricted to exactly what the algorithm needs
+            rk = {**rk, "use": "enc", **sufficient_key_ops(a)}
         recs.append({"alg": a, "key": rk, "sender": sk})
     if any(r["sender"] for r in recs):
         for r in recs:
